@@ -51,7 +51,7 @@ func decodeScope(c *core.Ctx, l *core.Ledger) map[*ssa.Function]core.CGEdge {
 }
 
 func checkC03(c *core.Ctx, l *core.Ledger) {
-	l.Explanation = "Static clauses of C03 on the decode scope D (functions of protocol/binary, wire, internal/frame reachable from the decoding entry points over the callback-gated call graph; computed each run): (NEGLEN) every signed 32-bit length read from the wire is sign-checked on every path before it is used as a size, count, skip distance or loop bound (interprocedural field-based taint with dominance-by-edge sanitizers); (EXH-ERR) every switch over wire.Type in D handles all 11 codes and its default returns an error; (BOOL-CANON) ReadBool succeeds only on bytes 0 and 1 with the right value; (LOOP) every loop in D is counted against a loop-invariant bound or consumes input on every iteration; (REC) every recursive cycle in D passes a consuming read or is structural on an in-memory value; (PANIC) every potentially panicking SSA instruction in D (explicit panic, unchecked type assertion, non-constant index/slice, make with non-constant size, integer division) falls in a verified discharge class; (SKIP=READ) Skip consumes per wire type the same width sequence as ReadValue. NOT decided: totality over all byte strings as such (nil dereference, stdlib, bytes.Buffer growth are assumed safe), stack depth on deeply nested input (depth is bounded by input length, not by a constant), re-encoding equality of consumed prefix."
+	l.Explanation = "Static clauses of C03 on the decode scope D (functions of protocol/binary, wire, internal/frame reachable from the decoding entry points over the callback-gated call graph; computed each run): (NEGLEN) every signed 32-bit length read from the wire is sign-checked on every path before it is used as a size, count, skip distance or loop bound (interprocedural field-based taint with dominance-by-edge sanitizers); (EXH-ERR) every switch over wire.Type in D handles all 11 codes and its default returns an error; (BOOL-CANON) ReadBool succeeds only on bytes 0 and 1 with the right value; (LOOP) every loop in D is counted against a loop-invariant bound or consumes input on every iteration; (REC) every recursive cycle in D passes a consuming read or is structural on an in-memory value; (PANIC) every potentially panicking SSA instruction in D (explicit panic, unchecked type assertion, non-constant index/slice, make with non-constant size, integer division) falls in a verified discharge class; (SKIP=READ) Skip consumes per wire type the same width sequence as ReadValue; (FULL-READ) the wrapped io.Reader is used only through full-read primitives (io.ReadFull/io.CopyN), so a read or skip of n bytes consumes exactly n under any segmentation. NOT decided: totality over all byte strings as such (nil dereference, stdlib, bytes.Buffer growth are assumed safe), stack depth on deeply nested input (depth is bounded by input length, not by a constant), re-encoding equality of consumed prefix."
 	l.RuleText = "one obligation per (rule, construct) in D; non-trivial = a guard, path or table had to be examined"
 	l.Assumptions = []string{"io.Reader/io.ReaderAt implementations honour 0 <= n <= len(p)", "stack depth is bounded by input length (each recursion level consumes >= 1 byte), not by a constant", "nil dereference and stdlib internals are outside the ledger"}
 	d := decodeScope(c, l)
@@ -109,6 +109,9 @@ func checkC03(c *core.Ctx, l *core.Ledger) {
 	checkRecursion(c, l, d, consuming)
 	checkPanicLedger(c, l, dl, inD)
 	checkSkipRead(c, l, m)
+	// SKIP=READ and the width sequences presuppose that every primitive consumes exactly the bytes it asks for
+	checkStreamReaderFullRead(c, l)
+	checkNoRawRead(c, l, "FULL-READ", []string{"protocol/binary"})
 }
 
 func fixedWidthCovered(c *core.Ctx) func(k *types.Const) bool {
